@@ -38,11 +38,11 @@ def main():
 // auto-seed) come from one stream seeded by the simulator. Scheduler-internal
 // draws (work stealing, sema tickets) keep using the per-M generator so that
 // idle spinning cannot perturb the stream.
-var verifRand struct {
+var verifRand = struct {
 	on bool
 	s  uint64
 	n  uint64
-}
+}{on: true, s: 0x5eed5eed5eed5eed} // on from process start: maps created by package initialisers get reproducible seeds too
 
 //go:nosplit
 func verifrand() uint32 {
@@ -130,7 +130,33 @@ func verifDraws() uint64 { return verifRand.n }
         "proc.go/goschedImpl")
     s = patch(s, "} else if pd.schedwhen+forcePreemptNS <= now {\n",
         "} else if pd.schedwhen+forcePreemptNS <= now && !verifRand.on {\n", "proc.go/retake")
+    # no P hand-off either: a simulated goroutine that is in a (short, real)
+    # system call keeps its P, otherwise the order in which goroutines run
+    # would depend on how long the host kernel took
+    s = patch(s, "func retake(now int64) uint32 {\n\tn := 0\n",
+        "func retake(now int64) uint32 {\n\tif verifRand.on {\n\t\treturn 0\n\t}\n\tn := 0\n", "proc.go/retake-syscall")
     files["proc.go"] = s
+
+    # ---- alg.go -------------------------------------------------------
+    # The hash functions behind maps are keyed with per-process random data, so
+    # the layout of a map - and with it the order in which `range` visits it,
+    # even with seeded iteration offsets - differs from process to process.
+    # (Found the hard way: yamux force-closes the streams of a dying session in
+    # map order, and which blocked goroutine woke first differed per process.)
+    s = open(os.path.join(rt, "alg.go")).read()
+    s = patch(s, "\t\thashkey[i] = uintptr(bootstrapRand())\n",
+        "\t\thashkey[i] = uintptr(0x9e3779b97f4a7c15 * uint64(i+1)) // VERIF overlay: fixed hash key\n", "alg.go/hashkey")
+    s = patch(s, "\t\tkey[i] = bootstrapRand()\n",
+        "\t\tkey[i] = 0x9e3779b97f4a7c15 * uint64(i+1) // VERIF overlay: fixed hash key\n", "alg.go/aeskey")
+    files["alg.go"] = s
+
+    # ---- sema.go ------------------------------------------------------
+    # sync.Mutex switches to starvation mode when a waiter has waited more
+    # than 1ms of REAL time; under load that changes who gets a contended lock.
+    s = open(os.path.join(rt, "sema.go")).read()
+    s = patch(s, "func internal_sync_nanotime() int64 {\n\treturn nanotime()\n",
+        "func internal_sync_nanotime() int64 {\n\tif verifRand.on {\n\t\treturn 1 // VERIF overlay: no real-time dependent lock hand-off (non-zero keeps the LIFO requeue of a woken waiter)\n\t}\n\treturn nanotime()\n", "sema.go/nanotime")
+    files["sema.go"] = s
 
     replace = {}
     for name, text in files.items():
